@@ -29,6 +29,7 @@ use serde_json::value::RawValue;
 
 use crate::events::{Event, EventLog};
 
+pub const MAX_INITIAL: u32 = 130;
 pub const RPC_VERIFY_ERROR: i32 = -25;
 pub const RPC_VERIFY_REJECTED: i32 = -26;
 pub const RPC_VERIFY_ALREADY_IN_CHAIN: i32 = -27;
@@ -99,7 +100,8 @@ pub struct NodeState {
 pub struct SimNode(pub Arc<Mutex<NodeState>>);
 
 fn work_per_block() -> Work {
-    genesis_header().work()
+    static W: std::sync::OnceLock<Work> = std::sync::OnceLock::new();
+    *W.get_or_init(|| genesis_header().work())
 }
 
 fn bits() -> bitcoin::CompactTarget {
@@ -107,6 +109,11 @@ fn bits() -> bitcoin::CompactTarget {
 }
 
 fn genesis_header() -> Header {
+    static G: std::sync::OnceLock<Header> = std::sync::OnceLock::new();
+    *G.get_or_init(genesis_header_uncached)
+}
+
+fn genesis_header_uncached() -> Header {
     let mut h = Header {
         version: BlockVersion::from_consensus(0),
         prev_blockhash: BlockHash::all_zeros(),
@@ -188,9 +195,40 @@ impl NodeState {
         let gh = gblock.block_hash();
         st.blocks.insert(gh, (gblock, 0));
         st.active.push(gh);
-        for _ in 0..initial_height {
-            st.mine(vec![]);
+        // The initial chain is a pure function of its length: build it once per process.
+        static INITIAL: Mutex<Option<(Vec<(BlockHash, Block)>, u32)>> = Mutex::new(None);
+        let mut cache = INITIAL.lock().unwrap_or_else(|e| e.into_inner());
+        if cache.is_none() {
+            let mut tmp = NodeState {
+                blocks: st.blocks.clone(),
+                active: st.active.clone(),
+                roots: BTreeSet::new(),
+                mempool: Vec::new(),
+                policy_invalid: BTreeSet::new(),
+                txindex,
+                confirmed: HashMap::new(),
+                chain_spent: HashMap::new(),
+                faults: Faults::default(),
+                rpc_count: 0,
+                bs_count: 0,
+                branch_nonce: 0,
+                log: EventLog::new(),
+                fired: BTreeMap::new(),
+            };
+            for _ in 0..MAX_INITIAL {
+                tmp.mine(vec![]);
+            }
+            let chain: Vec<(BlockHash, Block)> = tmp.active.iter().map(|h| (*h, tmp.blocks[h].0.clone())).collect();
+            *cache = Some((chain, tmp.branch_nonce));
         }
+        let (chain, _) = cache.as_ref().unwrap();
+        assert!(initial_height <= MAX_INITIAL, "HARNESS: initial height too large");
+        for (h, (bh, b)) in chain.iter().enumerate().skip(1).take(initial_height as usize) {
+            st.blocks.insert(*bh, (b.clone(), h as u32));
+            st.active.push(*bh);
+        }
+        st.branch_nonce = 1_000_000;
+        st.rebuild();
         st
     }
 
@@ -356,6 +394,14 @@ impl NodeState {
         Err(RPC_INVALID_ADDRESS_OR_KEY)
     }
 
+    pub fn mine_rebuild_only(&mut self) {
+        self.rebuild();
+    }
+
+    pub fn readmit(&mut self, candidates: Vec<Transaction>) {
+        self.revalidate_mempool(candidates);
+    }
+
     /// Re-validates the mempool against the active chain, keeping arrival order (Core: removeForReorg / removeConflicts).
     fn revalidate_mempool(&mut self, mut candidates: Vec<Transaction>) {
         candidates.append(&mut self.mempool);
@@ -421,10 +467,20 @@ impl NodeState {
         let prev = self.blocks[&prev_hash].0.header;
         let block = build_block(&prev, prev_hash, all);
         let bh = block.block_hash();
+        for tx in block.txdata.iter() {
+            let txid = tx.compute_txid();
+            self.confirmed.insert(txid, (bh, height));
+            for i in tx.input.iter() {
+                if !i.previous_output.is_null() {
+                    self.chain_spent.insert(i.previous_output, txid);
+                }
+            }
+        }
         self.blocks.insert(bh, (block, height));
         self.active.push(bh);
-        self.rebuild();
-        self.revalidate_mempool(vec![]);
+        if !self.mempool.is_empty() {
+            self.revalidate_mempool(vec![]);
+        }
         bh
     }
 
